@@ -139,7 +139,7 @@ inductive Attr
 deriving DecidableEq, Repr, Inhabited
 
 /-- the seven keys `pickle_safe_dict` deletes -/
-def Attr.unsafe : Attr → Bool
+def Attr.notShipped : Attr → Bool
   | .actions | .actionInstances | .cleanActions | .teardown | .customTitle | .valueSavers | .uptodate => true
   | _ => false
 
@@ -150,7 +150,7 @@ abbrev TaskRec := Attr → Nat
 abbrev Pickled := Attr → Option Nat
 
 /-- `Task.pickle_safe_dict` -/
-def pickleSafe (t : TaskRec) : Pickled := fun a => if a.unsafe then none else some (t a)
+def pickleSafe (t : TaskRec) : Pickled := fun a => if a.notShipped then none else some (t a)
 
 /-- `Task.update_from_pickle`: `self.__dict__.update(pickle_obj)` -/
 def updateFromPickle (t : TaskRec) (p : Pickled) : TaskRec := fun a => (p a).getD (t a)
